@@ -258,6 +258,14 @@ def compare_pool(ex, p, res, when):
             okv, m = _valid(ex, ex.binop('Eq', x, y, False))
             if not okv:
                 raise SpecViolation('content-differs', f'{when}: byte {i} of {nm} differs from the byte-vector result', m)
+        # conversion to a vector: the real to_vec() against the same reference
+        tv = ex.call('Message::to_vec', [Ref(hold, 'm')])
+        if len(tv.items) != len(ref):
+            raise SpecViolation('to-vec-differs', f'{when}: to_vec() of {nm} has {len(tv.items)} bytes, the byte-vector result has {len(ref)}', ex.check_sat()[1])
+        for i, (x, y) in enumerate(zip(tv.items, ref)):
+            okv, m = _valid(ex, ex.binop('Eq', x, y, False))
+            if not okv:
+                raise SpecViolation('to-vec-differs', f'{when}: byte {i} of to_vec() of {nm} differs from the byte-vector result', m)
         # cached length == sum of chunk windows (representation invariant observable through len/iter agreement): covered above
     # equality agrees with byte-vector equality (checked for one pair per comparison round)
     res['obligations'] += 1
